@@ -10,6 +10,7 @@ import (
 	clienttypes "github.com/bianjieai/tibc-go/modules/tibc/core/02-client/types"
 	packettypes "github.com/bianjieai/tibc-go/modules/tibc/core/04-packet/types"
 	host "github.com/bianjieai/tibc-go/modules/tibc/core/24-host"
+	routingtypes "github.com/bianjieai/tibc-go/modules/tibc/core/26-routing/types"
 
 	"verif/vnet"
 )
@@ -34,13 +35,14 @@ type PktCfg struct {
 	Rules     [][]string
 	AdvBatch  int           // variants per adversarial batch (0 = all)
 	Delay     time.Duration // confirmation delay of the Tendermint clients (0 = none)
+	PRules float64 // probability per step of a governance change of one chain's routing rules
 	// NoFieldEdits leaves out the port / relay-chain alterations (C13's subject).
 	NoFieldEdits bool
 }
 
 // DefaultPktCfg is the balanced workload.
 func DefaultPktCfg() PktCfg {
-	return PktCfg{NChains: 3, Steps: 120, PSend: 0.28, PRelay: 0.38, PAdv: 0.2, PClean: 0.1, PFailSend: 0.04, Tokens: true, AdvBatch: 6}
+	return PktCfg{NChains: 3, Steps: 120, PSend: 0.28, PRelay: 0.38, PAdv: 0.2, PClean: 0.1, PFailSend: 0.04, Tokens: true, AdvBatch: 6, PRules: 0.015}
 }
 
 // PktSim is the generator state of one history.
@@ -276,6 +278,10 @@ func (s *PktSim) CleanStep() {
 		return
 	}
 	if s.Rng.Intn(2) == 0 {
+		if s.Rng.Intn(5) == 0 {
+			s.foreignClean(pr)
+			return
+		}
 		cp := CleanPoint(src, pr[0], pr[1])
 		ma := MaxAck(src, pr[0], pr[1])
 		// first unacked = lowest commitment
@@ -352,7 +358,55 @@ func (s *PktSim) CleanStep() {
 			rebuild(r)
 			s.W.Do(r)
 		}
+		// ... and a few it accepted above the clean point: their receipts must have survived the clean
+		var above []*Action
+		for _, o := range s.sent {
+			if o.Kind == "recv" && o.On == on && o.Res != nil && o.Res.OK() && o.Packet != nil &&
+				o.Packet.SourceChain == cpk.SourceChain && o.Packet.DestinationChain == cpk.DestinationChain && o.Packet.Sequence > cpk.Sequence {
+				above = append(above, o)
+			}
+		}
+		for n := 0; n < 3 && len(above) > 0 && !s.W.Stop; n++ {
+			r := cloneAction(above[s.Rng.Intn(len(above))], "replay-above-clean-point")
+			rebuild(r)
+			s.W.Do(r)
+		}
 	}
+}
+
+// foreignClean submits a user clean request for the pair on a chain that is not its source (destination, relay
+// or a bystander), naming the real source, with N taken from what that chain knows about the pair. A chain can
+// only ever clean its own outgoing direction on request; anything else needs proof of the source's clean point.
+func (s *PktSim) foreignClean(pr [2]string) {
+	var others []*vnet.Chain
+	for _, c := range s.chains() {
+		if c.Name != pr[0] {
+			others = append(others, c)
+		}
+	}
+	on := others[s.Rng.Intn(len(others))]
+	if s.Rng.Intn(3) != 0 {
+		if d := s.W.Chain(pr[1]); d != nil {
+			on = d
+		}
+	}
+	cp, ma := CleanPoint(on, pr[0], pr[1]), MaxAck(on, pr[0], pr[1])
+	cands := []uint64{cp + 1, ma, ma, ma + 1, 1}
+	if ma > cp+1 {
+		cands = append(cands, cp+1+uint64(s.Rng.Intn(int(ma-cp))))
+	}
+	n := cands[s.Rng.Intn(len(cands))]
+	if n == 0 {
+		n = 1
+	}
+	relay := ""
+	if s.Rng.Intn(3) == 0 {
+		relay = pr[0]
+	}
+	cpk := packettypes.NewCleanPacket(n, pr[0], pr[1], relay)
+	u := s.user(on)
+	s.W.Do(&Action{Kind: "clean", On: on, Signer: u, Clean: &cpk, Mut: "clean-request-on-foreign-chain",
+		Msgs: []sdk.Msg{packettypes.NewMsgCleanPacket(cpk, u.Addr)}})
 }
 
 // ---------- adversarial relayer ------------------------------------------
@@ -568,6 +622,33 @@ func (s *PktSim) Variants(base *Action) []*Action {
 		add("proof-bitflip", func(a *Action) { a.Proof[s.Rng.Intn(len(a.Proof))] ^= 1 << uint(s.Rng.Intn(8)) })
 		add("proof-random", func(a *Action) { s.Rng.Read(a.Proof) })
 	}
+	// re-arranged proofs (every element still decodes): once with the genuine fields, the others around a forged message
+	if len(base.Proof) > 4 {
+		forge := func(a *Action) {
+			switch {
+			case a.Kind == "ack" && len(a.Ack) > 0:
+				a.Ack[s.Rng.Intn(len(a.Ack))] ^= 1 << uint(s.Rng.Intn(8))
+			case a.Packet != nil && s.Rng.Intn(3) == 0:
+				a.Packet.Sequence += 1000
+			case a.Packet != nil:
+				a.Packet.Data = append(a.Packet.Data, byte(s.Rng.Intn(256)))
+			case a.Clean != nil:
+				a.Clean.Sequence++
+			}
+		}
+		for n, i := range s.Rng.Perm(len(ProofStructMutations))[:4] {
+			mut := ProofStructMutations[i]
+			bz := MutateProofStruct(base.Proof, mut)
+			if bz == nil && mut != "empty" {
+				continue
+			}
+			if n == 0 {
+				add("proof-struct/"+mut, func(a *Action) { a.Proof = bz })
+				continue
+			}
+			add("forged+proof-struct/"+mut, func(a *Action) { a.Proof = append([]byte{}, bz...); forge(a) })
+		}
+	}
 	// proof height
 	add("height-1", func(a *Action) { a.PH.RevisionHeight-- })
 	add("height+1", func(a *Action) { a.PH.RevisionHeight++ })
@@ -687,6 +768,44 @@ func (s *PktSim) advClean() {
 	}
 }
 
+// RulesChange replaces the routing rules of one chain through governance and then re-submits, verbatim, a few of
+// the receives that chain handled as a relay hop (forwarded or refused) under the old rules.
+func (s *PktSim) RulesChange() {
+	cs := s.chains()
+	c := s.pick()
+	var rules []string
+	switch s.Rng.Intn(4) {
+	case 0:
+		rules = []string{"*,*,*"}
+	case 1:
+		rules = []string{"*,*," + MockPort, cs[0].Name + ",*,NFT"}
+	case 2:
+		rules = []string{cs[0].Name + ",*,*", "*," + cs[0].Name + ",*"}
+	case 3:
+		rules = []string{"nochain-one,nochain-two,noport"} // authorises nothing that exists
+	}
+	msg := &routingtypes.MsgSetRoutingRules{Title: "t", Description: "d", Rules: rules, Authority: c.GovAddr}
+	r := s.W.Do(&Action{Kind: "gov-rules", On: c, Note: fmt.Sprint(rules), Exec: func(ctx sdk.Context) error {
+		h := c.App.MsgServiceRouter().Handler(msg)
+		_, err := h(ctx, msg)
+		return err
+	}})
+	if !r.OK() {
+		return
+	}
+	var olds []*Action
+	for _, o := range s.sent {
+		if o.Kind == "recv" && o.On == c && o.Packet != nil && o.Packet.RelayChain == c.Name && o.Res != nil && o.Res.OK() {
+			olds = append(olds, o)
+		}
+	}
+	for n := 0; n < 4 && len(olds) > 0 && !s.W.Stop; n++ {
+		a := cloneAction(olds[s.Rng.Intn(len(olds))], "replay-after-rules-change")
+		rebuild(a)
+		s.W.Do(a)
+	}
+}
+
 // Replay re-submits an earlier relayed message: verbatim (old proof) or with a
 // refreshed proof.
 func (s *PktSim) Replay() {
@@ -713,6 +832,10 @@ func (s *PktSim) Replay() {
 func (s *PktSim) Run() {
 	c := s.Cfg
 	for i := 0; i < c.Steps && !s.W.Stop; i++ {
+		if c.PRules > 0 && s.Rng.Float64() < c.PRules {
+			s.RulesChange()
+			continue
+		}
 		x := s.Rng.Float64()
 		switch {
 		case x < c.PSend:
